@@ -167,17 +167,11 @@ func (s *Set) getTemplate(templatePath string, cacheAfterParsing bool, parsing .
 }
 
 func (s *Set) getTemplateFromCache(templatePath string) (t *Template, ok bool) {
-	// check the path getTemplate() puts a template under, which has no extension appended
-	// (the loop below only finds it there when "" is one of the extensions)
+	// getTemplate() puts a template under the path it was asked for, without an extension appended;
+	// entries under templatePath+extension belong to other names (asked for with that extension) and
+	// must not shadow the files the extension order prefers for this one
 	if t := s.cache.Get(templatePath); t != nil {
 		return t, true
-	}
-	// check path with all possible extensions in cache
-	for _, extension := range s.extensions {
-		canonicalPath := templatePath + extension
-		if t := s.cache.Get(canonicalPath); t != nil {
-			return t, true
-		}
 	}
 	return nil, false
 }
